@@ -39,7 +39,7 @@ def run_jsep(ctx, focus):
     trace = os.path.join(ctx.work, "trace.ndjson")
 
     # 3. replay on real PeerConnections
-    binary = vlib.go_build(ctx, "root")
+    binary = vlib.go_build(ctx, "jsep")
     vlib.go_run(ctx, binary, "TestVerifJsep", infile, trace, timeout=1500)
 
     # 4. TLC validates what pion did
